@@ -31,6 +31,12 @@ T2Keys(j) == IF j > 1 THEN <<>> ELSE [x \in 1..(3 * Len(T2Vals)) |-> T2Key(j, ((
 InvVals == << <<2>>, <<1,0,0,0,0,0,0,0,0>>, <<1>> \o [q \in 1..12 |-> 0] \o <<48,57>>, <<1>> \o [q \in 1..23 |-> 0] \o <<9>> >>
 InvKey(j, hid, sv) == [kind |-> "invkey", hid |-> hid, idb |-> IdOf(j), k |-> B32(BSubMod(InvN(sv), H1(IdOf(j), hid), N)), inv |-> B32(sv)]
 InvKeys(j) == IF j > 1 THEN <<>> ELSE [x \in 1..(3 * Len(InvVals)) |-> InvKey(j, ((x - 1) % 3) + 1, InvVals[((x - 1) \div 3) + 1])]
+\* master secrets for which the 256-bit SUM H1 + k wraps: k = 2^256 - H1 (a legal key whenever it is below N, i.e. for H1 > 2^256 - N): t1 = 2^256 mod N is not
+\* zero, extraction must succeed -- a zero test on the raw machine sum sees 0
+Two256 == <<1>> \o [q \in 1..32 |-> 0]
+WrapK(j, hid) == BSub(Two256, H1(IdOf(j), hid))
+WrapKey(j, hid) == [kind |-> "wrapkey", hid |-> hid, idb |-> IdOf(j), k |-> B32(WrapK(j, hid)), legal |-> IF BLt(WrapK(j, hid), N) THEN 1 ELSE 0]
+WrapKeys(j) == << WrapKey(j, 1), WrapKey(j, 2), WrapKey(j, 3) >>
 \* identities whose hash H1(ID || hid) is SHORT (leading zero byte: 1 in 256): searched by the specification among "id000", "id001", ...
 IdNum(i) == <<105, 100, 48 + ((i \div 100) % 10), 48 + ((i \div 10) % 10), 48 + (i % 10)>>
 RECURSIVE FindShort(_, _, _)
@@ -46,6 +52,6 @@ SpecCt2(j, ke, x) == [kind |-> "specct", ke |-> B32(ke), idb |-> IdOf(j), msg |-
 SpecCt(j) == SpecCt2(j, Kof(j, 9), Encrypt(GPow(Kof(j, 9)), PpubE(Kof(j, 9)), IdOf(j), MsgOfJ(j), Kof(j, 2)))
 Init == pidx = 0 /\ pout = <<>>
 Next == pidx < NK /\ pidx' = pidx + 1 /\
-        pout' = << ZeroKey(pidx + 1, 1), ZeroKey(pidx + 1, 2), ZeroKey(pidx + 1, 3), SpecSig(pidx + 1), SpecCt(pidx + 1) >> \o HaEntries(pidx + 1) \o T2Keys(pidx + 1) \o InvKeys(pidx + 1) \o SmallH1(pidx + 1)
+        pout' = << ZeroKey(pidx + 1, 1), ZeroKey(pidx + 1, 2), ZeroKey(pidx + 1, 3), SpecSig(pidx + 1), SpecCt(pidx + 1) >> \o HaEntries(pidx + 1) \o T2Keys(pidx + 1) \o InvKeys(pidx + 1) \o SmallH1(pidx + 1) \o WrapKeys(pidx + 1)
 Emit == \A j \in 1..Len(pout) : PrintT(<<"PLAN", ToJson(pout[j])>>)
 =============================================================================
